@@ -841,7 +841,7 @@ def console_run(c, data, chunking):
                     if i % 64 == 0:
                         time.sleep(0.001)
             else:
-                for ln in data.split(b'\n'):
+                for ln in data.split(b'\n')[:-1]:
                     p.stdin.write(ln + b'\n'); p.stdin.flush(); time.sleep(0.02)
             p.stdin.close()
             out = p.stdout.read()
@@ -849,6 +849,13 @@ def console_run(c, data, chunking):
     except subprocess.TimeoutExpired:
         p.kill()
         return -1
+    except BrokenPipeError:
+        # the console has ended (it read :quit) while input was still being written: count what it answered
+        try:
+            out = p.stdout.read()
+            p.wait(timeout=60)
+        except Exception:
+            return -1
     return out.decode('utf-8', 'replace').count('Executing query: ')
 
 
